@@ -33,7 +33,7 @@ def main():
         r = sh(["git", "-C", repo, "apply", patch])
         if r.returncode != 0:
             print("patch does not apply:", r.stdout); return 2
-        sh("cp -a /verif %s" % verif)
+        sh("cp -a %s %s" % (os.environ.get("VERIF_SRC", "/verif"), verif))      # VERIF_SRC: a snapshot of /verif, so that /verif can be edited meanwhile
         for hd in ("harness", "harness-fast"):
             p = os.path.join(verif, hd, "Cargo.toml")
             s = open(p).read().replace('path = "/repo"', 'path = "%s"' % repo)
